@@ -1,0 +1,110 @@
+//go:build verif
+
+package translate
+
+// Contracts for the govc verifier (/verif/DESIGN.md). Package clause and comments only.
+//
+// The kernel of C05 (translation is a deterministic, side-effect-free function) and C06 (hygiene) that is
+// within reach of function contracts:
+//
+//   * the identifier generator is a deterministic function of its counters: the name handed out is
+//     prefix(class) ++ itoa(counter[class]), the counter of that class is incremented and no other counter
+//     changes - so two names of one class never coincide within a translation and the sequence of names is
+//     the same on every run;
+//   * the scope keeps two tables, definitions (generated identifier -> binding) and aliases (user symbol ->
+//     generated identifier). Lookup reads the first only, AliasedLookup goes through the second only;
+//   * NewTranslator takes a private copy of the caller's parameter map and starts from an empty result map.
+//
+// Everything above these functions (the 40k lines that drive them) is covered by the bounded stand-in of the
+// two properties, not by proof.
+
+//@ import pgsql "github.com/specterops/dawgs/cypher/models/pgsql"
+//@ import strconv "strconv"
+
+//@ pure func itoa(n int) string
+//@ extern func strconv.Itoa(n int) string
+//@   ensures result == itoa(n)
+
+//@ pure func genClass(d pgsql.DataType) pgsql.DataType {
+//@   d == pgsql.ExpansionPattern || d == pgsql.ExpansionPath || d == pgsql.PathComposite || d == pgsql.NodeComposite || d == pgsql.EdgeComposite || d == pgsql.Scope || d == pgsql.ParameterIdentifier ? d : (d == pgsql.PathEdge ? pgsql.EdgeComposite : pgsql.UnknownDataType)
+//@ }
+//@ pure func genPrefix(d pgsql.DataType) string {
+//@   d == pgsql.ExpansionPattern ? "ex" : (d == pgsql.ExpansionPath ? "ep" : (d == pgsql.PathComposite ? "pc" : (d == pgsql.NodeComposite ? "n" : (d == pgsql.EdgeComposite || d == pgsql.PathEdge ? "e" : (d == pgsql.Scope ? "s" : (d == pgsql.ParameterIdentifier ? "pi" : "i"))))))
+//@ }
+
+// a Go map read: the zero value for an absent key
+//@ pure func genCount(s IdentifierGenerator, k pgsql.DataType) int { k in s ? s[k] : 0 }
+
+//@ func (s IdentifierGenerator) NewIdentifier(dataType pgsql.DataType) (pgsql.Identifier, error)
+//@   requires s != nil
+//@   modifies contents(s)
+//@   ensures ok: result.1 == nil
+//@   ensures name: result.0 == genPrefix(dataType) + itoa(old(genCount(s, genClass(dataType))))
+//@   ensures counted: genClass(dataType) in s && s[genClass(dataType)] == old(genCount(s, genClass(dataType))) + 1
+//@   ensures others: forall k pgsql.DataType :: k != genClass(dataType) ==> (k in s) == old(k in s) && s[k] == old(s[k])
+
+//@ func NewIdentifierGenerator() IdentifierGenerator
+//@   nomod
+//@   ensures result != nil && fresh(result) && (forall k pgsql.DataType :: !(k in result))
+
+//@ func (s *Scope) Lookup(identifier pgsql.Identifier) (*BoundIdentifier, bool)
+//@   requires s != nil
+//@   nomod
+//@   ensures result.1 == (identifier in s.definitions)
+//@   ensures result.1 ==> result.0 == s.definitions[identifier]
+//@   ensures !result.1 ==> result.0 == nil
+
+//@ func (s *Scope) AliasedLookup(identifier pgsql.Identifier) (*BoundIdentifier, bool)
+//@   requires s != nil
+//@   nomod
+//@   ensures viaAliases: result.1 == (identifier in s.aliases && s.aliases[identifier] in s.definitions)
+//@   ensures binding: result.1 ==> result.0 == s.definitions[s.aliases[identifier]]
+//@   ensures absent: !result.1 ==> result.0 == nil
+
+//@ func (s *Scope) LookupString(identifierString string) (*BoundIdentifier, bool)
+//@   requires s != nil
+//@   nomod
+//@   ensures result.1 == (identifierString in s.aliases && s.aliases[identifierString] in s.definitions)
+//@   ensures result.1 ==> result.0 == s.definitions[s.aliases[identifierString]]
+
+//@ func (s *Scope) Alias(alias pgsql.Identifier, binding *BoundIdentifier)
+//@   requires s != nil && binding != nil && s.aliases != nil
+//@   modifies binding.Alias, contents(s.aliases)
+//@   ensures set: alias in s.aliases && s.aliases[alias] == binding.Identifier
+//@   ensures others: forall k pgsql.Identifier :: k != alias ==> (k in s.aliases) == old(k in s.aliases) && s.aliases[k] == old(s.aliases[k])
+
+//@ func (s *Scope) Define(identifier pgsql.Identifier, dataType pgsql.DataType) *BoundIdentifier
+//@   requires s != nil && s.definitions != nil
+//@   modifies contents(s.definitions)
+//@   ensures result != nil && fresh(result) && result.Identifier == identifier && result.DataType == dataType
+//@   ensures identifier in s.definitions && s.definitions[identifier] == result
+//@   ensures others: forall k pgsql.Identifier :: k != identifier ==> (k in s.definitions) == old(k in s.definitions) && s.definitions[k] == old(s.definitions[k])
+
+//@ func (s *Scope) DefineNew(dataType pgsql.DataType) (*BoundIdentifier, error)
+//@   requires s != nil && s.definitions != nil && s.generator != nil
+//@   modifies contents(s.definitions), contents(s.generator)
+//@   ensures ok: result.1 == nil && result.0 != nil && fresh(result.0)
+//@   ensures name: result.0.Identifier == genPrefix(dataType) + itoa(old(genCount(s.generator, genClass(dataType))))
+//@   ensures defined: result.0.Identifier in s.definitions && s.definitions[result.0.Identifier] == result.0
+//@   ensures aliasesUntouched: forall k pgsql.Identifier :: (k in s.aliases) == old(k in s.aliases) && s.aliases[k] == old(s.aliases[k])
+//@   ensures counted: s.generator[genClass(dataType)] == old(genCount(s.generator, genClass(dataType))) + 1
+
+//@ func NewScope() *Scope
+//@   nomod
+//@   ensures result != nil && fresh(result) && result.aliases != nil && fresh(result.aliases) && result.definitions != nil && fresh(result.definitions) && result.generator != nil && fresh(result.generator)
+//@   ensures forall k pgsql.Identifier :: !(k in result.aliases) && !(k in result.definitions)
+//@   ensures forall k pgsql.DataType :: !(k in result.generator)
+
+// NewTranslator: all mutable translation state is created here, per call. The caller's parameter map is
+// copied (never stored, never written), the result's parameter map starts empty and is the translator's own.
+//@ import context "context"
+//@ func NewTranslator(ctx context.Context, kindMapper pgsql.KindMapper, parameters map[string]any, graphID int32) *Translator
+//@   nomod
+//@   ensures own: result != nil && fresh(result)
+//@   ensures paramsCopied: result.parameters != nil && fresh(result.parameters) && (forall k string :: (k in result.parameters) == (k in parameters)) && (forall k string :: k in parameters ==> result.parameters[k] == parameters[k])
+//@   ensures resultParamsOwn: result.translation.Parameters != nil && fresh(result.translation.Parameters) && (forall k string :: !(k in result.translation.Parameters))
+//@   ensures scopeOwn: result.scope != nil && fresh(result.scope) && result.unwindTargets != nil && fresh(result.unwindTargets) && result.query != nil && fresh(result.query)
+//@   loop 0
+//@     invariant copied: forall k string :: k in visited ==> k in parameters && k in inputParameters && inputParameters[k] == parameters[k]
+//@     invariant only: forall k string :: k in inputParameters ==> k in visited
+//@     invariant own: inputParameters != nil && fresh(inputParameters)
